@@ -212,7 +212,24 @@ pub fn gen_c03(rng: &mut Rng, d: &mut Dist, _idx: u64) -> Vec<String> {
     out.push(format!("OP client_new {}", cl.bootstrap()));
     out.push("OP c load_metadata_all".into());
     let ncalls = 1 + rng.below(3);
-    for _ in 0..ncalls {
+    for call_no in 0..ncalls {
+        // a call that fails before or while its request is written (a client id that cannot be encoded, a connection that
+        // breaks) leaves nothing behind: the produce after it is as valid as any
+        if call_no > 0 && rng.chance(1, 4) {
+            let t = rng.pick(&cl.topics);
+            if rng.chance(1, 2) {
+                bump(d, "after-an-unencodable-request");
+                out.push(format!("OP c set client_id {}", h(&name_of_len(rng, 40000))));
+                out.push(format!("OP c produce 1 1 0 {} 0 ~ 6661696c", h(&t.name)));
+                out.push(format!("OP c set client_id {}", h("ok")));
+            } else {
+                bump(d, "after-a-broken-connection");
+                out.push("H write_chunks 9".into());
+                out.push("H fail_send 1".into());
+                out.push(format!("OP c produce 1 1 0 {} 0 ~ 6661696c", h(&t.name)));
+                out.push("H clear_faults".into());
+            }
+        }
         let c = rng.below(3);
         bump(d, &format!("codec-{}", c));
         out.push(format!("OP c set compression {}", c));
@@ -700,7 +717,13 @@ pub fn error_code(rng: &mut Rng, d: &mut Dist) -> i64 {
 }
 
 /// C11: every response kind with an error code injected on one partition at a random position among healthy ones.
-pub fn gen_c11(rng: &mut Rng, d: &mut Dist, _idx: u64) -> Vec<String> {
+pub fn gen_c11(rng: &mut Rng, d: &mut Dist, idx: u64) -> Vec<String> {
+    // error codes in the answers to a consumer's own single-partition fetches (a partition waiting behind a large entry):
+    // the histories of C17, half of them disturbed by injected partition errors
+    if idx % 8 == 7 {
+        bump(d, "consumer-retry-fetch-histories");
+        return gen_c17(rng, d, idx);
+    }
     let cl = Cluster::random(rng, 4, false);
     let mut out = cl.setup_lines();
     for t in &cl.topics {
@@ -1100,7 +1123,19 @@ pub fn gen_c20(rng: &mut Rng, d: &mut Dist, _idx: u64) -> Vec<String> {
             }
             2 => {
                 bump(d, "hist-reset");
+                // what was named last before the reset is as unknown afterwards as everything else
+                let (t, p) = pick_tp(rng, d, &cl);
+                if rng.chance(1, 2) {
+                    out.push(format!("OP c commit_offsets {} {} {} 3", h("grp"), h(&t), p));
+                } else {
+                    out.push(format!("OP c fetch_group_offsets {} {} {}", h("grp"), h(&t), p));
+                }
                 out.push("OP c reset_metadata".into());
+                match rng.below(3) {
+                    0 => out.push(format!("OP c commit_offsets {} {} {} 4", h("grp"), h(&t), p)),
+                    1 => out.push(format!("OP c fetch_group_offsets {} {} {}", h("grp"), h(&t), p)),
+                    _ => out.push(format!("OP c produce 1 1 0 {} {} ~ aa", h(&t), p)),
+                }
             }
             3 => {
                 bump(d, "op-fetch_messages");
@@ -1668,6 +1703,31 @@ pub fn gen_c05(rng: &mut Rng, d: &mut Dist, _idx: u64) -> Vec<String> {
         }
         bump(d, if unknown { "batch-with-unknown-destination" } else { "batch-all-known" });
         out.push(line);
+    }
+    // a produce call over every partition fails on the wire part-way; the calls after it get their own confirmations
+    if rng.chance(1, 4) {
+        bump(d, "a-call-fails-on-the-wire");
+        out.push("OP c set compression 0".into());
+        out.push(format!("H {} {}", rng.pick(&["fail_recv", "fail_send"]), rng.below(2)));
+        let mut line = String::from("OP c produce 1 5 0");
+        for t in &cl.topics {
+            for p in 0..t.leaders.len() {
+                if t.leaders[p] >= 0 {
+                    uniq += 1;
+                    line.push_str(&format!(" {} {} ~ {}", h(&t.name), p, hex(&uniq.to_be_bytes())));
+                }
+            }
+        }
+        out.push(line);
+        out.push("H clear_faults".into());
+        for _ in 0..(1 + rng.below(3)) {
+            let t = rng.pick(&cl.topics);
+            let led: Vec<usize> = (0..t.leaders.len()).filter(|&p| t.leaders[p] >= 0).collect();
+            if let Some(p) = led.first() {
+                uniq += 1;
+                out.push(format!("OP c produce 1 5 0 {} {} ~ {}", h(&t.name), p, hex(&uniq.to_be_bytes())));
+            }
+        }
     }
     // the producer layer on top: built in every way the builder offers, records with explicit partitions
     if rng.chance(1, 2) {
@@ -3110,6 +3170,41 @@ pub fn gen_c13_lifecycle(rng: &mut Rng, d: &mut Dist) -> Vec<String> {
 pub fn gen_c13(rng: &mut Rng, d: &mut Dist, idx: u64) -> Vec<String> {
     const GROUP: u64 = 48;
     if idx % 12 == 11 {
+        // a third of these: a consumer whose partitions wait behind large entries, served by brokers that answer more than
+        // they were asked (well-formed, all subscribed): the consumer's queues and counters must cope
+        if rng.chance(1, 3) {
+            bump(d, "over-answering-brokers");
+            if rng.chance(1, 2) {
+                let mut sc = gen_c17(rng, d, idx);
+                let at = sc.iter().position(|l| l.starts_with("OP ")).unwrap_or(sc.len());
+                sc.insert(at, "FETCHSHAPE 1 3".into());
+                sc.insert(at, "FETCHSHAPE 2 3".into());
+                return sc;
+            }
+            // every partition stuck behind an entry that needs several doublings: the fetches of single partitions are
+            // answered with all of them, again and again
+            let np = 2 + rng.below(2) as usize;
+            let base = *rng.pick(&[64usize, 100]);
+            let mut sc = vec![format!("BROKER 1 {} 9092", h("b1")), format!("TOPIC {} {}", h("t"), np)];
+            for p in 0..np {
+                sc.push(format!("LEADER {} {} 1", h("t"), p));
+                let big = raw_msg(0, 0, None, Some(&vec![0xEEu8; base * *rng.pick(&[5usize, 9, 40])]), 0);
+                sc.push(format!("APPENDRAW {} {} 0 0 {}", h("t"), p, hex(&big)));
+                sc.push(format!("APPEND {} {} plain 1 ~ 01", h("t"), p));
+            }
+            sc.push("FETCHSHAPE 1 3".into());
+            sc.push(format!(
+                "OP consumer_create hosts={} topic={} fallback=earliest maxbytes={} retrylimit={}",
+                h("b1:9092"),
+                h("t"),
+                base,
+                rng.pick(&[100_000usize, base * 4, base * 64])
+            ));
+            for _ in 0..(8 + rng.below(8)) {
+                sc.push("OP poll".into());
+            }
+            return sc;
+        }
         return gen_c13_shapes(rng, d);
     }
     if idx % 12 == 5 {
